@@ -5,6 +5,7 @@ import (
 	yaml "github.com/ghodss/yaml"
 	"github.com/go-openapi/spec"
 	"github.com/sirupsen/logrus"
+	"sort"
 )
 
 type SwaggerExporter struct {
@@ -46,7 +47,15 @@ func (s *SwaggerExporter) GenerateSwagger() error {
 
 	// parse endpoints
 	endpointExporter := makeEndpointExporter(typeExporter, s.log)
-	for endpointName, endpoint := range s.app.Endpoints {
+	// in name order: two endpoints can have the same path and method ("GET /a" and "GET /a b": the path is what
+	// comes before the second blank), and which of them is kept must not depend on map iteration order.
+	endpointNames := make([]string, 0, len(s.app.Endpoints))
+	for endpointName := range s.app.Endpoints {
+		endpointNames = append(endpointNames, endpointName)
+	}
+	sort.Strings(endpointNames)
+	for _, endpointName := range endpointNames {
+		endpoint := s.app.Endpoints[endpointName]
 		err := endpointExporter.populateEndpoint(endpointName, endpoint, s.buildSwagger.Paths.Paths)
 		if err != nil {
 			return err
